@@ -93,8 +93,9 @@ class DelayEval:
     (decided separately by the interval analysis of that function)."""
 
     def __init__(self, m: pf.Module, band_lo_ms: int, band_hi_ms: int, delay_fn: str = 'delay_ms_for_try', tries: str = 'tries', band1_hi_ms: Optional[int] = None,
-                 base_ms: Optional[int] = None):
+                 base_ms: Optional[int] = None, model: Optional['DelayModel'] = None):
         self.m = m
+        self.model = model      # the back-off function itself, for calls that bind parameters beyond (tries, base_delay_ms, max_delay_ms)
         self.b1hi = Fraction(band1_hi_ms if band1_hi_ms is not None else band_hi_ms)
         self.base = Fraction(base_ms if base_ms is not None else band_lo_ms)
         self.blo = Fraction(band_lo_ms)
@@ -245,6 +246,12 @@ class DelayEval:
     def _call(self, e: ast.Call, env, fn, offset, params_ext) -> AV:
         name = pf.dotted(e.func) or ''
         if name == self.delay_fn:
+            known = ('base_delay_ms', 'max_delay_ms')
+            beyond = len(e.args) > 3 or any(k.arg not in known for k in e.keywords)
+            if self.model is not None and (beyond or any(p in self.model.extras for p in self.model.positional[1:len(e.args)])):
+                return self._model_call(e, env, fn, offset, params_ext)
+            if beyond:
+                raise Decline(f'`{pf.nsrc(e)}` binds parameters other than (tries, base_delay_ms, max_delay_ms): not understood without a model of `{self.delay_fn}`')
             if [pf.nsrc(a) for a in e.args] == [self.tries] and not e.keywords:
                 return AV(self.blo, self.bhi, 'ms', (Fraction(1), offset), origin=pf.nsrc(e))
             # explicit bounds that evaluate to the defaults are the documented band too
@@ -352,6 +359,71 @@ class DelayEval:
             return self._helper(e, env, fn, offset, params_ext)
         raise Decline(f'call `{pf.nsrc(e)}` is not understood by the delay analysis')
 
+    def _model_call(self, e: ast.Call, env, fn, offset, params_ext) -> AV:
+        """A call of the back-off function that binds one of its extra parameters (a floor, an additive extra, ...): the body of the function
+        is evaluated in the interval domain for every try count (exhaustive thanks to the clamp on the exponent), once with the parameter
+        values of this call and once with the defaults.  Inside the default result for every try count = still the documented band."""
+        import math
+        from . import absdom
+        mdl = self.model
+        assert mdl is not None
+        if not e.args or pf.nsrc(e.args[0]) != self.tries:
+            raise Decline(f'`{pf.nsrc(e)}`: first argument is not `{self.tries}`')
+        if len(e.args) > len(mdl.positional):
+            raise Decline(f'`{pf.nsrc(e)}`: more positional arguments than parameters')
+        srcs: Dict[str, ast.AST] = dict(zip(mdl.positional[1:], e.args[1:]))
+        for k in e.keywords:
+            if k.arg is None or k.arg not in mdl.params[1:] or k.arg in srcs:
+                raise Decline(f'`{pf.nsrc(e)}`: keyword `{k.arg}` is not a parameter of {self.delay_fn}')
+            srcs[k.arg] = k.value
+        avs = {p: self.eval(a, env, fn, offset, params_ext) for p, a in srcs.items()}
+        for p, v in avs.items():
+            if p not in mdl.extras and not (v.lo == v.hi and mdl.defaults.get(p) is not NONE and v.lo == mdl.defaults.get(p)):
+                raise Decline(f'`{pf.nsrc(e)}`: `{p}` is not the default together with an optional parameter of {self.delay_fn} (not analysed)')
+        notes: List[str] = []
+        bound: Dict[str, object] = {}
+        for p, v in avs.items():
+            notes += v.notes
+            want_unit = unit_of_name(p)
+            if want_unit and v.unit and v.unit != want_unit:
+                notes.append(f'`{p}` of {self.delay_fn} is in {want_unit} but `{pf.nsrc(srcs[p])[:60]}` is in {v.unit}')
+            lo = -UNB if v.lo == -INF else math.floor(v.lo)
+            hi = UNB if v.hi == INF else math.ceil(v.hi)
+            bound[p] = absdom.Interval(lo, hi)
+        rows = []
+        try:
+            for t in range(1, mdl.hi_try + 1):
+                got, ok = mdl.run(t, bound)
+                ref, _ = mdl.run(t, {})
+                rows.append((t, got, ref, ok))
+        except AnalysisError as ex:
+            raise Decline(f'`{pf.nsrc(e)}`: {ex}')
+        outside = [(t, g, r) for t, g, r, _ in rows if g.lo < r.lo or g.hi > r.hi]
+        if not outside:
+            if not mdl.exhaustive:
+                raise Decline(f'`{pf.nsrc(e)}`: inside the documented band for the {len(rows)} try counts evaluated, but they are not exhaustive (no clamp on the exponent)')
+            return AV(self.blo, self.bhi, 'ms', (Fraction(1), offset), origin=pf.nsrc(e), notes=notes)
+        if not all(ok for _, _, _, ok in rows):
+            raise Decline(f'`{pf.nsrc(e)}`: the result is only over-approximated (an undecided branch in {self.delay_fn}) and the over-approximation leaves the documented band: not decided')
+
+        def show(x):
+            return 'unbounded' if is_unb(x) else str(x)
+        over = [(t, g, r) for t, g, r in outside if g.hi > r.hi]
+        t, g, r = max(over, key=lambda x: x[1].hi - x[2].hi) if over else outside[0]
+        if over:
+            t = min(tt for tt, gg, rr in over if gg.hi - rr.hi == g.hi - r.hi)
+            g, r = next((gg, rr) for tt, gg, rr in over if tt == t)
+        culprits = [p for p in srcs if p in mdl.extras] or list(srcs)
+        what = ', '.join(f'`{p}` = `{pf.nsrc(srcs[p])[:70]}` ranging over {avs[p].show()}' + (f' (from `{avs[p].origin[:60]}`)' if avs[p].ext and avs[p].origin else '') for p in culprits)
+        descr = (f'{pf.nsrc(e)[:120]}: with {what}, {self.delay_fn} returns [{show(g.lo)}, {show(g.hi)}] ms for tries={t} where the documented band is [{r.lo}, {r.hi}] ms '
+                 f'({len(outside)} of {len(rows)} try counts leave the band)')
+        lo = min(g2.lo for _, g2, _, _ in rows)
+        hi = max(g2.hi for _, g2, _, _ in rows)
+        out = AV(-INF if is_unb(lo) else Fraction(lo), INF if is_unb(hi) else Fraction(hi), 'ms', None, any(v.ext for v in avs.values()), any(v.stale for v in avs.values()), descr, notes)
+        if out.hi <= self.bhi:
+            out.excursion = descr
+        return out
+
     def bind_helper(self, e: ast.Call, env, fn, offset, params_ext):
         """(helper def, evaluator to use inside it, its environment, its external parameters) for a call of a module-level helper."""
         h = self.m.func(e.func.id)  # type: ignore[attr-defined]
@@ -397,7 +469,7 @@ class DelayEval:
                 raise Decline(f'`{pf.nsrc(e)}`: no value for parameter {p}')
         sub = self
         if tries_param is not None:
-            sub = DelayEval(self.m, int(self.blo), int(self.bhi), self.delay_fn, tries_param, int(self.b1hi), int(self.base))
+            sub = DelayEval(self.m, int(self.blo), int(self.bhi), self.delay_fn, tries_param, int(self.b1hi), int(self.base), model=self.model)
             sub._stack = self._stack
         return h, sub, henv, hext, key
 
@@ -830,7 +902,7 @@ def upper_bounds(fn: pf.FuncDef, e: ast.AST, depth: int = 8, limit: int = 64) ->
     """Symbolic upper bounds of a NON-NEGATIVE numeric expression of `fn`, each valid for every value of the parameters:
          x                     <= x                      and <= every bound of its single local definition
          min(a, b, ..)         <= every bound of every argument
-         max(a, b, ..)         <= a bound shared by all arguments
+         max(a, b, ..)         <= a bound of one argument that dominates some bound of every other argument
          a // k, a / k, a >> k <= bounds(a) / k          (k a positive constant; `>> k` divides by 2**k)
          a * k                 <= bounds(a) * k
          a + b                 <= bound(a) + bound(b)
@@ -871,7 +943,11 @@ def upper_bounds(fn: pf.FuncDef, e: ast.AST, depth: int = 8, limit: int = 64) ->
                 return dedupe([b for a in x.args for b in go(a, d - 1)])
             if name == 'max' and len(x.args) >= 2:
                 per = [go(a, d - 1) for a in x.args]
-                shared = [b for b in per[0] if all(any(b.key() == o.key() for o in other) for other in per[1:])]
+
+                def dominates(big: UB, small: UB) -> bool:  # small <= big for every non-negative valuation of the atoms
+                    return small.const <= big.const and all(v <= big.coef.get(a, Fraction(0)) for a, v in small.coef.items()) \
+                        and all(v >= 0 for a, v in big.coef.items() if a not in small.coef)
+                shared = [b for i, bs in enumerate(per) for b in bs if all(any(dominates(b, o) for o in other) for j, other in enumerate(per) if j != i)]
                 return dedupe(shared + [own])
             if name in ('random.randrange', 'randrange') and len(x.args) == 1:
                 return dedupe([b + UB({}, Fraction(-1)) for b in go(x.args[0], d - 1)] + [own])
@@ -920,3 +996,154 @@ def depends_on(fn: pf.FuncDef, e: ast.AST, name: str) -> bool:
                     for d in pf.assignments(fn).get(n.id, []):
                         todo.append(d)
     return False
+
+
+# ------------------------------------------------------------------------------------------------
+# the back-off function as a model: interval evaluation of its body for every try count, with extra (optional) parameters bound to the
+# abstract values a call site passes (a floor, an additive extra, a scale ...)
+# ------------------------------------------------------------------------------------------------
+
+UNB = 1 << 200  # "no finite bound" inside integer interval arithmetic: every operator evaluated is monotone, a corner this large can only stem from it
+NONE = object()  # value of a parameter whose default is None (only `is None` / `is not None` tests may look at it)
+
+
+def is_unb(x) -> bool:
+    return abs(x) >= (UNB >> 90)
+
+
+def _narrow(test: ast.AST, env: Dict[str, object], exact: Set[str]):
+    """(env if the test holds | None when it cannot, env if it fails | None when it cannot, exact?) for the tests understood:
+    `p is None`, `p is not None`, truth of a name, one comparison `name <op> expr` / `expr <op> name` (interval narrowing of the name)."""
+    from . import absdom
+    I = absdom.Interval
+    if isinstance(test, ast.UnaryOp) and isinstance(test.op, ast.Not):
+        t, f, ex = _narrow(test.operand, env, exact)
+        return f, t, ex
+    if isinstance(test, ast.Compare) and len(test.ops) == 1 and isinstance(test.ops[0], (ast.Is, ast.IsNot)) and isinstance(test.left, ast.Name) \
+            and isinstance(test.comparators[0], ast.Constant) and test.comparators[0].value is None and test.left.id in env:
+        is_none = env[test.left.id] is NONE
+        holds = is_none if isinstance(test.ops[0], ast.Is) else not is_none
+        return (env if holds else None), (None if holds else env), True
+    if isinstance(test, ast.Name) and test.id in env:
+        v = env[test.id]
+        if v is NONE:
+            return None, env, True
+        if isinstance(v, I) and v.lo >= 0:
+            t_env = dict(env, **{test.id: I(max(v.lo, 1), v.hi)}) if v.hi >= 1 else None
+            f_env = dict(env, **{test.id: I(0, 0)}) if v.lo <= 0 else None
+            return t_env, f_env, test.id in exact
+    if isinstance(test, ast.Compare) and len(test.ops) == 1 and isinstance(test.ops[0], (ast.Lt, ast.LtE, ast.Gt, ast.GtE)):
+        op = type(test.ops[0])
+        flip = {ast.Lt: ast.Gt, ast.LtE: ast.GtE, ast.Gt: ast.Lt, ast.GtE: ast.LtE}
+        for name_side, other, o in ((test.left, test.comparators[0], op), (test.comparators[0], test.left, flip[op])):
+            if not (isinstance(name_side, ast.Name) and isinstance(env.get(name_side.id), I)):
+                continue
+            if any(isinstance(x, ast.Name) and x.id == name_side.id for x in ast.walk(other)):
+                continue
+            n = env[name_side.id]
+            r = eval_int_interval(other, {k: v for k, v in env.items() if isinstance(v, I)})
+            # name o other
+            if o is ast.Gt:
+                t_rng, f_rng = (max(n.lo, r.lo + 1), n.hi), (n.lo, min(n.hi, r.hi))
+            elif o is ast.GtE:
+                t_rng, f_rng = (max(n.lo, r.lo), n.hi), (n.lo, min(n.hi, r.hi - 1))
+            elif o is ast.Lt:
+                t_rng, f_rng = (n.lo, min(n.hi, r.hi - 1)), (max(n.lo, r.lo), n.hi)
+            else:
+                t_rng, f_rng = (n.lo, min(n.hi, r.hi)), (max(n.lo, r.lo + 1), n.hi)
+            t_env = dict(env, **{name_side.id: I(*t_rng)}) if t_rng[0] <= t_rng[1] else None
+            f_env = dict(env, **{name_side.id: I(*f_rng)}) if f_rng[0] <= f_rng[1] else None
+            return t_env, f_env, name_side.id in exact
+    return env, env, False
+
+
+def eval_body_int(stmts: Sequence[ast.stmt], env: Dict[str, object], exact: Set[str]):
+    """Interval evaluation of a loop-free body of assignments, returns and `if`s.  -> (hull of the returned values | None, environment at
+    the end | None when every path returned, exact?).  `exact` = names that are independent inputs: narrowing one of them by a single
+    comparison loses nothing, so both arms are really attainable; any other undecided test makes the result an over-approximation."""
+    from . import absdom
+    I = absdom.Interval
+    env = dict(env)
+    ret = None
+    ok = True
+
+    def num(e):
+        for x in ast.walk(e):
+            if isinstance(x, ast.Name) and env.get(x.id) is NONE:
+                raise AnalysisError(f'interval evaluation: `{x.id}` may be None in `{pf.nsrc(e)}`')
+        return eval_int_interval(e, {k: v for k, v in env.items() if isinstance(v, I)})
+
+    def hull(a, b):
+        if a is None:
+            return b
+        if b is None:
+            return a
+        return I(min(a.lo, b.lo), max(a.hi, b.hi))
+
+    for st in stmts:
+        if isinstance(st, ast.Expr) and isinstance(st.value, ast.Constant):
+            continue
+        if isinstance(st, ast.Pass):
+            continue
+        if isinstance(st, ast.Assign) and len(st.targets) == 1 and isinstance(st.targets[0], ast.Name):
+            env[st.targets[0].id] = num(st.value)
+        elif isinstance(st, ast.AnnAssign) and isinstance(st.target, ast.Name) and st.value is not None:
+            env[st.target.id] = num(st.value)
+        elif isinstance(st, ast.Return) and st.value is not None:
+            return hull(ret, num(st.value)), None, ok
+        elif isinstance(st, ast.If):
+            t_env, f_env, ex = _narrow(st.test, env, exact)
+            if t_env is not None and f_env is not None and not ex:
+                ok = False
+            outs = []
+            for benv, body in ((t_env, st.body), (f_env, st.orelse)):
+                if benv is None:
+                    continue
+                r, e2, ex2 = eval_body_int(body, benv, exact)
+                ok = ok and ex2
+                ret = hull(ret, r)
+                if e2 is not None:
+                    outs.append(e2)
+            if not outs:
+                return ret, None, ok
+            merged: Dict[str, object] = {}
+            for k in outs[0]:
+                vals = [o.get(k) for o in outs]
+                if all(isinstance(v, I) for v in vals):
+                    merged[k] = I(min(v.lo for v in vals), max(v.hi for v in vals))  # type: ignore[union-attr]
+                elif all(v is NONE for v in vals):
+                    merged[k] = NONE
+            env = merged
+        else:
+            raise AnalysisError(f'interval evaluation: statement `{pf.nsrc(st)[:60]}` (line {st.lineno}: {type(st).__name__}) is not an assignment / return / if')
+    return ret, env, ok
+
+
+class DelayModel:
+    """delay_ms_for_try as decided by R3: its definition, the module constants it uses, the default of every parameter but `tries`
+    (int, or NONE), and the try counts 1..hi_try that are exhaustive thanks to the clamp on the exponent."""
+
+    def __init__(self, fn: pf.FuncDef, consts: Dict[str, int], defaults: Dict[str, object], hi_try: int, known: Sequence[str] = ('base_delay_ms', 'max_delay_ms'),
+                 exhaustive: bool = True):
+        self.fn = fn
+        self.exhaustive = exhaustive  # the try counts 1..hi_try cover every behaviour of the function (the exponent is clamped below hi_try)
+        self.consts = dict(consts)
+        self.defaults = dict(defaults)
+        self.hi_try = hi_try
+        self.params = [a.arg for a in fn.args.posonlyargs + fn.args.args + fn.args.kwonlyargs]
+        self.positional = [a.arg for a in fn.args.posonlyargs + fn.args.args]
+        self.extras = [p for p in self.params[1:] if p not in known]
+
+    def run(self, t: int, bound: Dict[str, object]):
+        """(interval of the result for try count t with the given parameter values, exact?)"""
+        from . import absdom
+        I = absdom.Interval
+        env: Dict[str, object] = {k: I(v, v) for k, v in self.consts.items()}
+        for p, d in self.defaults.items():
+            env[p] = d if d is NONE else I(d, d)  # type: ignore[arg-type]
+        env.update(bound)
+        env[self.params[0]] = I(t, t)
+        ret, rest, ok = eval_body_int(self.fn.body, env, set(self.extras))
+        if ret is None or rest is not None:
+            raise AnalysisError(f'{self.fn.name}: some path does not return a value')
+        return ret, ok
